@@ -393,7 +393,10 @@ def run(ctx):
         'every event each call\'s Deferred must have fired exactly as the '
         'reference call table says and the armed timers must be exactly the '
         'outstanding deadlines; in every state the clock is then run out and '
-        'late replies delivered: nothing may fire again')
+        'late replies delivered: nothing may fire again. Long-lived '
+        'process: a call outstanding while 254..257 and 65534..65537 further '
+        'messages are built (unsent signals, or answered calls on the same '
+        'connection), then a second call, answers in either order')
     ctx.assumptions = ['calls are issued in index order; deadlines are '
                        'permuted through the configurations instead']
     names = ['plain2', 'deadlines2', 'deadlines2rev', 'mixed2', 'retsig2',
@@ -421,6 +424,12 @@ def run(ctx):
                         max_depth=12, label=n + ' + a call from a '
                         'disconnect callback')
     ctx.map(_task_resend, [0])
+    from mcx import scale
+    gaps = scale.LADDER_SMALL[3:] + scale.LADDER_WORD
+    ctx.map(_task_long_lived,
+            [(g, 'signals') for g in gaps]
+            + [(g, 'calls') for g in (gaps if not ctx.quick else
+                                      scale.LADDER_SMALL[3:] + [65535])])
     ctx.bounds = {'configs': list(ctx.parts)}
 
 
@@ -549,6 +558,91 @@ def run_coalesced_disconnect(n, at, kinds):
     return viol
 
 
+def run_long_lived(gap, order, timeout, filler):
+    """call A stays unanswered while the process builds `gap`-1 further
+    messages (signals nobody sends, or calls on the same connection that are
+    answered at once); then call B is made and both are answered, in either
+    order: each completes with its own answer"""
+    from mcx import scale
+    viol = []
+    cw = fakes.ClientWorld()
+    try:
+        cw.sent()
+        conn = cw.conn
+        results = {'A': [], 'B': []}
+
+        def call(tag):
+            d = conn.callRemote('/o', 'Get' + tag, interface='a.b',
+                                destination='c.d', timeout=timeout)
+            d.addBoth(lambda r: results[tag].append(
+                ('err', getattr(r.value, 'errName', type(r.value).__name__))
+                if hasattr(r, 'value') else ('ok', r)))
+            return cw.sent()[0]['serial']
+        sa = call('A')
+        if filler == 'signals':
+            scale.build_messages(gap - 1)
+        else:
+            left = gap - 1
+            while left > 0:
+                chunk = min(left, 97)
+                ds = []
+                for _ in range(chunk):
+                    out = []
+                    d = conn.callRemote('/o', 'Fill', interface='a.b',
+                                        destination='c.d')
+                    d.addBoth(out.append)
+                    ds.append(out)
+                sent = cw.sent()
+                data = b''.join(R.encode_message(
+                    R.METHOD_RETURN, 5, {'reply_serial': m['serial']}, 'u',
+                    [9]) for m in sent)
+                conn.dataReceived(data)
+                if any(o != [9] for o in ds):
+                    viol.append(('long-lived/filler',
+                                 'a filler call was not completed by its '
+                                 'answer: %r' % [o for o in ds
+                                                 if o != [9]][:3]))
+                    return viol
+                left -= chunk
+        sb = call('B')
+        for tag in order:
+            conn.dataReceived(R.encode_message(
+                R.METHOD_RETURN, 900, {'reply_serial': sa if tag == 'A'
+                                       else sb}, 's', ['for-' + tag]))
+        cw.clock.advance(1000)
+        want = {'A': [('ok', 'for-A')], 'B': [('ok', 'for-B')]}
+        if results != want:
+            viol.append(('long-lived/%s' % ('same-serial' if sa == sb else
+                                            'wrong-completion'),
+                         'call A (serial %d) was outstanding while %d other '
+                         'messages were built, then call B (serial %d) was '
+                         'made; answers delivered in the order %s: the calls '
+                         'completed with %r, expected %r'
+                         % (sa, gap - 1, sb, order, results, want)))
+    except Exception as e:
+        viol.append(('long-lived/raises-%s' % type(e).__name__,
+                     'gap %d: raised %r' % (gap, e)))
+    finally:
+        cw.close()
+    return viol
+
+
+def _task_long_lived(task):
+    res = core.Result()
+    gap, filler = task
+    for order in ('AB', 'BA'):
+        for timeout in (None, 5):
+            res.count('states')
+            res.count('transitions', gap + 3)
+            res.count('evaluations')
+            res.count('nontrivial')
+            for t, w in run_long_lived(gap, order, timeout, filler):
+                res.violation('%s/%s' % (PROP, t), w,
+                              {'part': 'long-lived', 'args':
+                               [gap, order, timeout, filler]}, size=gap)
+    return res
+
+
 def _task_resend(_):
     res = core.Result()
     for first in ('return', 'error'):
@@ -582,6 +676,9 @@ def replay(data):
     if data.get('part') == 'coalesced':
         return [('%s/%s' % (PROP, t), w)
                 for t, w in run_coalesced_disconnect(*data['args'])]
+    if data.get('part') == 'long-lived':
+        return [('%s/%s' % (PROP, t), w)
+                for t, w in run_long_lived(*data['args'])]
     if data.get('part') == 'resend':
         return [('%s/%s' % (PROP, t), w)
                 for t, w in run_resend(*data['args'])]
